@@ -494,6 +494,8 @@ class InterpMixin:
 
     # ------------------------------------------------------------ assignment
     def store_name(self, scope, name, v):
+        if getattr(scope, "is_class_body", False) and name.startswith("__") and not name.endswith("__"):
+            name = "_" + scope.cls.name.lstrip("_") + name  # private names are mangled in class bodies
         if name in scope.globals_decl and scope.module is not None:
             scope.module.ns[name] = v
         else:
